@@ -190,13 +190,15 @@ theorem truncDown_mem (s : Style) (u : Bool) (tr : K → Int) (x e : K) :
   · right
     simp only [hgd, Bool.false_eq_true, if_false]
     by_cases hg : ((tr x : Int) : K) > x
-    · simp only [hg, if_true]
+    · simp only [hg, if_true, decide_true, Bool.true_and]
       split
-      · exact Or.inl rfl
+      · right; omega
       · split
-        · exact Or.inr rfl
         · exact Or.inl rfl
-    · simp only [hg, if_false]
+        · split
+          · exact Or.inr rfl
+          · exact Or.inl rfl
+    · simp only [hg, if_false, decide_false, Bool.false_and, Bool.false_eq_true]
       split
       · exact Or.inl rfl
       · split
